@@ -978,11 +978,29 @@ func (c *compiler) compile(in *ast.Program, strict, inGlobal bool, evalVm *vm) {
 	funcs := c.extractFunctions(in.Body)
 	c.createFunctionBindings(funcs)
 	numFuncs := len(scope.bindings)
+	var enter *enterBlock
+	lexScopeDone := false
+	if eval && inGlobal && !ownVarScope {
+		// Sloppy direct eval in global code: the function objects of the eval code's top-level function
+		// declarations are created in the eval code's own lexical environment
+		// (EvalDeclarationInstantiation: InstantiateFunctionObject(f, lexEnv)), so that they can see its
+		// let/const/class declarations. Enter that scope before the functions are compiled.
+		lexScopeDone = true
+		if c.compileLexicalDeclarations(in.Body, false) {
+			c.block = &block{
+				outer:      c.block,
+				typ:        blockScope,
+				needResult: true,
+			}
+			enter = &enterBlock{}
+			c.emit(enter)
+		}
+	}
 	if inGlobal && !ownVarScope {
 		if numFuncs == len(funcs) {
 			c.compileFunctionsGlobalAllUnique(funcs)
 		} else {
-			c.compileFunctionsGlobal(funcs)
+			c.compileFunctionsGlobal(scope, funcs)
 		}
 	}
 	c.compileDeclList(in.DeclarationList, false)
@@ -1002,8 +1020,7 @@ func (c *compiler) compile(in *ast.Program, strict, inGlobal bool, evalVm *vm) {
 			c.emit(&bindVars{names: vars, deletable: eval})
 		}
 	}
-	var enter *enterBlock
-	if c.compileLexicalDeclarations(in.Body, ownVarScope || !ownLexScope) {
+	if !lexScopeDone && c.compileLexicalDeclarations(in.Body, ownVarScope || !ownLexScope) {
 		if ownLexScope {
 			c.block = &block{
 				outer:      c.block,
@@ -1120,7 +1137,7 @@ func (c *compiler) compileFunctionsGlobalAllUnique(list []*ast.FunctionDeclarati
 	}
 }
 
-func (c *compiler) compileFunctionsGlobal(list []*ast.FunctionDeclaration) {
+func (c *compiler) compileFunctionsGlobal(s *scope, list []*ast.FunctionDeclaration) {
 	m := make(map[unistring.String]int, len(list))
 	for i := len(list) - 1; i >= 0; i-- {
 		name := list[i].Function.Name.Name
@@ -1133,7 +1150,7 @@ func (c *compiler) compileFunctionsGlobal(list []*ast.FunctionDeclaration) {
 		name := decl.Function.Name.Name
 		if m[name] == i {
 			c.compileFunctionLiteral(decl.Function, false).emitGetter(true)
-			c.scope.bindings[idx] = c.scope.boundNames[name]
+			s.bindings[idx] = s.boundNames[name]
 			idx++
 		} else {
 			leave := c.enterDummyMode()
